@@ -2,6 +2,7 @@ CONSTANTS MaxRetx = 1
   MaxRounds = 3
   Mode = "none"
   Buffered = TRUE
+  WithWriteFailures = FALSE
 INIT Init
 NEXT Next
 INVARIANTS Bounded SparesResponsive ClosesOnlyExhausted FailIsNotAck
